@@ -10,7 +10,7 @@ PROP = dict(
         rule='one evaluation = one line of the harness trace: a TryToAcquire/Release/Acquire call on a real Spinlock in a '
              'single goroutine (A k / AX k a: the lock is held and a yield hook releases it at its k-th call; AN: yieldFn=nil, '
              'released by a goroutine on another core), replayed through the Lean machine that executes the regenerated '
-             'assembly, or one stress round S <goroutines> <ops each> <GOMAXPROCS,0=all> <try%> on the real lock, or one '
+             'assembly, or one stress round S <goroutines> <ops each> <GOMAXPROCS,0=all> <try%> <seed> on the real lock, or one '
              'breadth-first model search; distinct = by hash of the line; non-trivial = a successful try, a contended '
              'acquire, a stress round or a search',
         trusted=['x86-TSO / real parallelism are outside the Lean model: XCHG is a full barrier and sync/atomic is sequentially '
